@@ -27,5 +27,7 @@ def run(ctx, rep):
     check_dispatcher(ctx, r3)
     r4 = rep.rule("pure-builder", "nothing reachable from InstrumentTrack.from_chart_lines writes state that outlives the call", floor=10)
     check_pure_reachable(ctx, r4, ["chartparse.instrument.InstrumentTrack.from_chart_lines"])
+    r6 = rep.rule("ctor", "each Chart owns the map from_file filled for it (no shared default)", floor=1)
+    C.check_chart_init(r6)
     r5 = rep.rule("passthrough", "from_filepath passes the selection unchanged", floor=2)
     C.check_reading(r5)
